@@ -1,10 +1,44 @@
-import StepupModel.Lemmas.DisciplineReattach
+import StepupModel.Lemmas.DisciplineRetarget
 /-!
 # The flag discipline of `_update_meta_after` over requests and histories
 
-`Disc cfg s`: keys are unique and the weak flag discipline `CacheInvAfterW s cfg` holds
-(`Lemmas/MetaAfterW.lean`: an attached step that is not flagged `_check_after` satisfies its local
-equation or has a flagged attached consumer).
+`CacheInvAfterW s cfg` (`Lemmas/MetaAfterW.lean`): an attached step that is not flagged `_check_after`
+satisfies its local equation or has a flagged attached consumer.  It is the hypothesis of the worklist
+theorems; this development shows that the writers of the model maintain it.
+
+Main results (all for a fixed pair of target sets; `reconcile_targets` under an unchanged configuration
+only raises flags):
+
+* `exec_ti` / `step_ti` / `run_ti` / `reachable_ti`: `TI cfg` (the discipline, the flag-free structural
+  invariant `Struct`, the creator forest `Forest`) is preserved by **every** accepted request, with three
+  side conditions (`ReqOK'`): the step of an `amend` has a row, `reset_for_rerun` is asked of a step, and
+  the raw `detach` of a file meets `FileDetachOK`.
+* `detach_output_file_breaks_discipline`: the third side condition is needed (the raw `Node.detach` of an
+  output file that still has the edge from its attached, unflagged producer; `counterexample_1`; not a
+  request the director delivers).
+* `reachable_updateMetaAfter_correct'`: hence `_update_meta_after` is correct on every reachable state.
+* `exec_reconcile_retarget` (`reconcileTargets_retarget`), `exec_plainSoft_ti`: a change of the target sets
+  followed by the plain soft requests of a restart and `reconcile_targets` carries the invariants from the
+  old target sets to the new ones.
+* `exec_soft_disc`, `exec_ds`, `run_ds`, `run_ds_relative`: the same without `Forest` for the requests that
+  do not declare anything.
+
+Per model function (file, theorem):
+
+| function | verdict | theorem |
+|---|---|---|
+| soft writes: `setStepState`, `writeFile` within a role, `setHash`, `deleteHash`, flagging passes, `markStepPending`, `markFileOutdated`, `handleUpdated/Deleted`, `updateFileHashes`, `outdateBuiltProducts`, `rebuildOutdatedProducts`, `completeSuccess`, `hold`, `release`, `registerNglob`, `revertOptional`, `resetInterrupted`, `rescanEnvVars`, `checkConsistency`, `updateMetaSafe`, `updateMetaReady`, `reconcileTargets` | preserved | `DisciplineSoft`: `*_soft`, `cacheInvW_soft` |
+| `updateMetaAfter`, `updateMeta`, `popNext` | establish the strict form | `updateMeta_disc`, `popNext_disc` |
+| `insertDep` | preserved, unconditionally | `insertDep_wd` |
+| `deleteDeps` | preserved when the steps that lose an attached consumer are flagged | `wd_deleteDeps` |
+| `dropDynamicInputs` (`flagDynamicSuppliers`) | preserved | `RInv.dropDynamicInputs` |
+| `detach` of a step or a tree | preserved under `Struct` | `detach_disc_struct` |
+| `detach` of a file | preserved under `Struct` and `FileDetachOK`; refuted without | `detach_output_file_breaks_discipline` |
+| `resetForRerun`, `completeFailure`, `markCompleted` | preserved under `Struct` | `resetForRerun_rinv`, `completeFailure_rinv` |
+| `create` (fresh and recycling) | preserved under `Struct`, `Forest` | `create_wd`, `create_struct` |
+| `reattach` (of a step), `recycleStep`, `afterRecycle` | preserved under `Struct`, `Forest` | `reattach_wd`, `recycleStep_ti` |
+| `declareFile`, `declareStaticFiles`, `supplyFiles`, `declareProducts`, `createStep`, `defineStep`, `amendStep`, `handOver`, `registerStaticTree`, `declareStaticRequest` | preserved (`TI`) | `*_ti` |
+| `deletePass`, `deleteDetachedBase`, `deleteDetached` | preserved (`TI`) | `deleteDetached_ti` |
 -/
 namespace StepupModel.K.Discipline
 open StepupModel.K.MetaAfter StepupModel.Lemmas StepupModel.Generated StepupModel.K.Sk
@@ -177,7 +211,7 @@ theorem ds_cfg_congr {s : KState} {cfg cfg' : KConfig} (h1 : cfg'.targets = cfg.
   ⟨(disc_cfg_congr h1 h2 h.disc).2, h.2⟩
 
 theorem struct_init : Struct KState.init := by
-  refine ⟨by unfold KeysUnique; decide, ?_, ?_, ?_, ?_, ?_⟩
+  refine ⟨by unfold KeysUnique; decide, ?_, ?_, ?_, ?_, ?_, ?_⟩
   · intro d hd; cases hd
   · intro n hn hs
     simp only [KState.init, List.mem_singleton] at hn
@@ -187,6 +221,9 @@ theorem struct_init : Struct KState.init := by
     subst hn; rfl
   · intro d hd; cases hd
   · intro d hd; cases hd
+  · intro n hn _
+    simp only [KState.init, List.mem_singleton] at hn
+    subst hn; rfl
 
 theorem ds_init (cfg : KConfig) : DS cfg KState.init := ⟨(disc_init cfg).2, struct_init⟩
 
@@ -383,7 +420,7 @@ theorem reachable_updateMetaAfter_correct (cfg : KConfig) (h : List (KConfig × 
 
 /-! ## Histories with uncovered requests: the relative form -/
 
-/-- Like `HistOK`, but a request outside the covered classes is admitted when the discipline and the
+/-- Like `HistOK`, but a request outside the covered classes is allowed when the discipline and the
 structural invariant are *known* to hold after it: the open obligation is reduced to the declaring
 requests (`define`, `amend`, `static`, `tree`, `declStatic`) and `delete_detached`. -/
 def HistRel (cfg : KConfig) : KState → List (KConfig × Req) → Prop
@@ -404,6 +441,190 @@ theorem run_ds_relative (cfg : KConfig) (h : List (KConfig × Req)) (s : KState)
     rcases hr with hr | hr
     · exact ds_cfg_congr ht.symm htd.symm (step_ds x.1 x.2 s hr (ds_cfg_congr ht htd hp))
     · exact hr
+
+
+/-! ## All requests: discipline, structure and creator forest -/
+
+theorem ti_init (cfg : KConfig) : TI cfg KState.init := ⟨(ds_init cfg).1, struct_init, init_forest⟩
+
+theorem ti_cfg_congr {s : KState} {cfg cfg' : KConfig} (h1 : cfg'.targets = cfg.targets)
+    (h2 : cfg'.targetDirs = cfg.targetDirs) (h : TI cfg s) : TI cfg' s :=
+  ⟨(ds_cfg_congr h1 h2 ⟨h.disc, h.st⟩).1, h.st, h.fo⟩
+
+/-- What is asked of a request for `exec_ti`: the step of an `amend` has a row; `reset_for_rerun` is for
+a step; the raw `detach` of a file needs `FileDetachOK`.  Every other request is unconditional. -/
+def ReqOK' (s : KState) : Req → Prop
+  | .amend k .. => Has s k
+  | .resetRerun k => k.kind = .step
+  | .detach k => FileDetachOK s k
+  | _ => True
+
+/-- **Every accepted request preserves the flag discipline** together with the structural invariant and
+the creator forest (`amend` for a step that has a row, `reset_for_rerun` for a step, `detach` of a file
+under `FileDetachOK`). -/
+theorem exec_ti (cfg : KConfig) (r : Req) (s : KState) (res : KState × String) (hr : ReqOK' s r)
+    (hp : TI cfg s) (h : s.exec cfg r = .ok res) : TI cfg res.1 := by
+  have hfo : Forest res.1 := exec_forest cfg r s res hp.fo h
+  have old : ReqOK s r → TI cfg res.1 := fun hro =>
+    have := exec_ds cfg r s res hro ⟨hp.disc, hp.st⟩ h
+    ⟨this.1, this.2, hfo⟩
+  cases r with
+  | deleteDetached => exact deleteDetached_ti hp (unitOut_ok' h)
+  | define c d =>
+    simp only [KState.exec] at h
+    refine bind_ok_gen h (fun a => TI cfg a.1) (fun a ha => (defineStep_ti hp ha).1) (fun r => TI cfg r.1) ?_
+    intro a b ha hb; obtain ⟨st, chk⟩ := a
+    simp only [pure, Except.pure, Except.ok.injEq] at hb; subst hb; exact ha
+  | amend k inp env out vol conc =>
+    simp only [KState.exec] at h
+    refine bind_ok_gen h (fun a => TI cfg a.1) (fun a ha => (amendStep_ti hp hr ha).1) (fun r => TI cfg r.1) ?_
+    intro a b ha hb; obtain ⟨st, chk⟩ := a
+    simp only [pure, Except.pure, Except.ok.injEq] at hb; subst hb; exact ha
+  | static c ps =>
+    simp only [KState.exec] at h
+    refine bind_ok_gen h (fun a => TI cfg a.1) (fun a ha => (declareStaticFiles_ti hp ha).1) (fun r => TI cfg r.1) ?_
+    intro a b ha hb; obtain ⟨st, chk⟩ := a
+    simp only [pure, Except.pure, Except.ok.injEq] at hb; subst hb; exact ha
+  | tree c p =>
+    simp only [KState.exec] at h
+    refine bind_ok_gen h (fun a => TI cfg a.1) (fun a ha => (registerStaticTree_ti hp ha).1) (fun r => TI cfg r.1) ?_
+    intro a b ha hb; obtain ⟨st, chk⟩ := a
+    simp only [pure, Except.pure, Except.ok.injEq] at hb; subst hb; exact ha
+  | declStatic c ts fs ps =>
+    simp only [KState.exec] at h
+    refine bind_ok_gen h (fun a => TI cfg a.1) (fun a ha => (declareStaticRequest_ti hp ha).1) (fun r => TI cfg r.1) ?_
+    intro a b ha hb; obtain ⟨st, chk⟩ := a
+    simp only [pure, Except.pure, Except.ok.injEq] at hb; subst hb; exact ha
+  | resetRerun k => exact old hr
+  | detach k => exact old hr
+  | nglob k p ms => exact old trivial
+  | hashes u c => exact old trivial
+  | pop c => exact old trivial
+  | updateMeta => exact old trivial
+  | completed k nh wd => exact old trivial
+  | setState k stt => exact old trivial
+  | deleteHash k => exact old trivial
+  | markPending k => exact old trivial
+  | hold k => exact old trivial
+  | release k => exact old trivial
+  | revertOptional => exact old trivial
+  | clearQueue => exact old trivial
+  | resetInterrupted => exact old trivial
+  | rescanEnv => exact old trivial
+  | reconcile => exact old trivial
+  | checkConsistency => exact old trivial
+
+theorem step_ti (cfg : KConfig) (r : Req) (s : KState) (hr : ReqOK' s r) (hp : TI cfg s) : TI cfg (s.step cfg r) := by
+  unfold KState.step
+  cases h : s.exec cfg r with
+  | error e => exact hp
+  | ok res => obtain ⟨s', out⟩ := res; exact exec_ti cfg r s (s', out) hr hp h
+
+/-- A history with constant target sets whose requests satisfy `ReqOK'` on the states they are issued in. -/
+def HistOK' (cfg : KConfig) : KState → List (KConfig × Req) → Prop
+  | _, [] => True
+  | s, cr :: rest =>
+    (cr.1.targets = cfg.targets ∧ cr.1.targetDirs = cfg.targetDirs ∧ ReqOK' s cr.2) ∧
+      HistOK' cfg (s.step cr.1 cr.2) rest
+
+theorem run_ti (cfg : KConfig) (h : List (KConfig × Req)) (s : KState) (hp : TI cfg s) (hh : HistOK' cfg s h) :
+    TI cfg (s.run h) := by
+  unfold KState.run
+  induction h generalizing s with
+  | nil => exact hp
+  | cons x xs ih =>
+    simp only [List.foldl_cons]
+    obtain ⟨⟨ht, htd, hr⟩, hrest⟩ := hh
+    exact ih _ (ti_cfg_congr ht.symm htd.symm (step_ti x.1 x.2 s hr (ti_cfg_congr ht htd hp))) hrest
+
+/-- **The flag discipline holds after every history of requests** (accepted or rejected) under constant
+target sets, the three side conditions of `ReqOK'` granted. -/
+theorem reachable_ti (cfg : KConfig) (h : List (KConfig × Req)) (hh : HistOK' cfg KState.init h) :
+    TI cfg (KState.init.run h) := run_ti cfg h KState.init (ti_init cfg) hh
+
+/-- Hence `_update_meta_after` is correct on every such state: it terminates, establishes every local
+equation, clears every flag and writes nothing but the three cached columns. -/
+theorem reachable_updateMetaAfter_correct' (cfg : KConfig) (h : List (KConfig × Req)) (hh : HistOK' cfg KState.init h) :
+    ∃ s', (KState.init.run h).updateMetaAfter cfg = .ok s' ∧ AfterConsistent s' cfg ∧
+      (∀ n ∈ s'.nodes, n.key.kind = .step → n.checkAfter = false) ∧ AfterFrame (KState.init.run h) s' :=
+  updateMetaAfter_reachable_correct_weak h cfg (reachable_ti cfg h hh).disc
+
+
+/-! ## A change of the target sets -/
+
+/-- The requests a new director issues between the change of its targets and `reconcile_targets`
+(and every other request whose writes are soft and do not read the target sets). -/
+def plainSoftReq : Req → Bool
+  | .nglob .. | .hashes .. | .completed _ (some _) _ | .setState .. | .deleteHash .. | .markPending .. | .hold ..
+  | .release .. | .revertOptional | .clearQueue | .resetInterrupted | .rescanEnv | .checkConsistency => true
+  | _ => false
+
+/-- A plain soft request preserves the invariants **for any target sets** `cfgW`, whatever the
+configuration `cfgX` it runs under. -/
+theorem exec_plainSoft_ti (cfgW cfgX : KConfig) (r : Req) (hr : plainSoftReq r = true) (s : KState)
+    (res : KState × String) (hp : TI cfgW s) (h : s.exec cfgX r = .ok res) : TI cfgW res.1 := by
+  have hfo : Forest res.1 := exec_forest cfgX r s res hp.fo h
+  have key : ∀ {f : KState → M KState}, (∀ s0, Preserves (SP s0) f) → ∀ st, f s = .ok st → TI cfgW st → TI cfgW st :=
+    fun _ _ _ ht => ht
+  have lift : ∀ {f : KState → M KState}, (∀ s0, Preserves (SP s0) f) → f s = .ok res.1 → TI cfgW res.1 := by
+    intro f hf hs
+    have := preserves_ds_of_soft hf cfgW s res.1 ⟨hp.disc, hp.st⟩ hs
+    exact ⟨this.1, this.2, hfo⟩
+  cases r with
+  | nglob k p ms => exact lift (fun s0 => registerNglob_soft k p ms) (unitOut_ok' h)
+  | hashes u c => exact lift (fun s0 => updateFileHashes_soft u c) (unitOut_ok' h)
+  | completed k nh wd =>
+    cases nh with
+    | none => cases hr
+    | some hh =>
+      simp only [KState.exec, KState.markCompleted] at h
+      simp only [bind, Except.bind] at h
+      cases hc : s.completeSuccess cfgX k hh with
+      | error e => simp [hc] at h
+      | ok st =>
+        simp only [hc, pure, Except.pure, Except.ok.injEq] at h
+        subst h
+        exact lift (fun s0 => completeSuccess_soft cfgX k hh) hc
+  | setState k stt => exact lift (fun s0 => setStepState_soft k stt false) (unitOut_ok' h)
+  | deleteHash k =>
+    have := unitOut_ok' h
+    simp only [pure, Except.pure, Except.ok.injEq] at this
+    have hs := deleteHash_soft s k (SP.refl hp.st.keys)
+    rw [← this]
+    exact hp.soft hs.2
+  | markPending k => exact lift (fun s0 => markStepPending'_soft k) (unitOut_ok' h)
+  | hold k => exact lift (fun s0 => hold_soft k) (unitOut_ok' h)
+  | release k => exact lift (fun s0 => release_soft k) (unitOut_ok' h)
+  | revertOptional => exact lift (fun s0 => revertOptional_soft) (unitOut_ok' h)
+  | clearQueue =>
+    have := unitOut_ok' h
+    simp only [pure, Except.pure, Except.ok.injEq] at this
+    rw [← this]
+    exact hp.soft ((SP.refl hp.st.keys).queue []).2
+  | resetInterrupted => exact lift (fun s0 => resetInterrupted_soft) (unitOut_ok' h)
+  | rescanEnv => exact lift (fun s0 => rescanEnvVars_soft cfgX) (unitOut_ok' h)
+  | checkConsistency => exact lift (fun s0 => checkConsistency_soft) (unitOut_ok' h)
+  | define c d => cases hr
+  | amend k inp env out vol conc => cases hr
+  | static c ps => cases hr
+  | tree c p => cases hr
+  | declStatic c ts fs ps => cases hr
+  | pop c => cases hr
+  | updateMeta => cases hr
+  | resetRerun k => cases hr
+  | detach k => cases hr
+  | deleteDetached => cases hr
+  | reconcile => cases hr
+
+/-- **`reconcile_targets` under new target sets** turns the invariants for the old target sets into
+the invariants for the new ones: the restart of a director with other targets (`check_consistency`,
+`reset_interrupted`, `rescan_env`: plain soft requests; then `reconcile`) keeps the flag discipline. -/
+theorem exec_reconcile_retarget (cfgO cfgN : KConfig) (s : KState) (res : KState × String) (hp : TI cfgO s)
+    (h : s.exec cfgN .reconcile = .ok res) : TI cfgN res.1 := by
+  have hfo : Forest res.1 := exec_forest cfgN .reconcile s res hp.fo h
+  have hs := unitOut_ok' h
+  have hrel := (reconcileTargets_soft (s0 := s) cfgN s res.1 (SP.refl hp.st.keys) hs).2
+  exact ⟨reconcileTargets_retarget hp.st hp.fo hp.disc hs, struct_of_rel hrel.struct hp.st, hfo⟩
 
 /-! ## The side condition on `detach` is needed -/
 
@@ -426,7 +647,7 @@ def wAfter (r : M KState) : Bool :=
 
 
 theorem cxState_struct : Struct cxState := by
-  refine ⟨by unfold KeysUnique; decide, ?_, ?_, ?_, ?_, ?_⟩
+  refine ⟨by unfold KeysUnique; decide, ?_, ?_, ?_, ?_, ?_, ?_⟩
   · intro d hd hs f hf
     simp only [cxState, List.mem_singleton] at hd
     subst hd
@@ -456,6 +677,13 @@ theorem cxState_struct : Struct cxState := by
   · intro d hd
     simp only [cxState, List.mem_singleton] at hd
     subst hd; exact ⟨rfl, rfl⟩
+  · intro n hn hr
+    simp only [cxState, List.mem_cons, List.not_mem_nil, or_false] at hn
+    rcases hn with rfl | rfl | rfl | rfl
+    · rfl
+    · cases hr
+    · cases hr
+    · cases hr
 
 /-- **Without `FileDetachOK` the discipline is not preserved**: the raw `Node.detach` of an output file
 that still has the edge from its (attached, unflagged) producer.  The state is the one reached by
